@@ -1606,7 +1606,8 @@ class SSHServerChannel(SSHChannel, Generic[AnyStr]):
         super().__init__(conn, loop, encoding, errors, window, max_pktsize)
 
         env_opt = cast(EnvMap, conn.get_key_option('environment', {}))
-        self._env = dict(encode_env(env_opt))
+        self._key_env = dict(encode_env(env_opt))
+        self._env = dict(self._key_env)
 
         self._allow_pty = allow_pty
         self._line_editor = line_editor
@@ -1774,7 +1775,12 @@ class SSHServerChannel(SSHChannel, Generic[AnyStr]):
         packet.check_end()
 
         self.logger.debug1('  Env: %s=%s', key, value)
-        self._env[key] = value
+
+        # Values set by the authorized_keys environment option take
+        # precedence over values requested by the client
+        if key not in self._key_env:
+            self._env[key] = value
+
         return True
 
     def _start_session(self, command: Optional[str] = None,
